@@ -1,184 +1,11 @@
 import Pm.HLDefs
-/-! Structurally recursive (fuel based) restatement of `msort` / `coalesce` / `collapse` / `sortHL` of `Pm/Sort2.lean`
-    (= `hostlist_sort` of `liblsd/hostlist.c`: `qsort` with `hostrange_cmp`, `hostlist_coalesce`, `hostlist_collapse`).
-
-    The originals are `partial def`s, so nothing can be proved about them.  The `…F` versions below run the same
-    steps in the same order (glibc merge order: top down, `n1 = n/2`, take from the left run when `cmp ≤ 0`; the same
-    width side effects of `hostrange_cmp` / `hostrange_width_combine` on the shared range objects; the same `assert`
-    outcome), but every loop runs on a fuel COMPUTED from its input and reports exhaustion explicitly (`.fuel`)
-    instead of stopping silently.  Agreement with the originals is checked by evaluation (see the end of this file);
-    the proofs are in `Pm/SortFProof.lean`. -/
+/-! Checks on `hostlist_sort` as modelled in `Pm/Sort2.lean` (`msort` / `coalesce` / `collapse` / `sortHL`: structurally
+    recursive, fuel computed from the input, explicit `.fuel` outcome): kernel-evaluated examples, the known defect F19,
+    and the record of the agreement runs made when these definitions replaced the earlier `partial` definitions.
+    The proofs are in `Pm/SortFProof.lean`. -/
 namespace Pm
 
-/-- outcome of a fuel-bounded computation that may hit the `assert` of `hostrange_intersect` -/
-inductive RF (α : Type) where
-  | ok (a : α)
-  | abort          -- assert(hostrange_cmp(h1, h2) <= 0) in hostrange_intersect
-  | fuel           -- the computed fuel bound was not enough (never observed)
-deriving Repr, DecidableEq
-
-/-- result of `sortHLF` -/
-inductive SortResF where
-  | ok (hl : Hostlist)
-  | abort
-  | fuel
-deriving Repr, DecidableEq
-
-/-! ## merge sort (glibc `msort_with_tmp`) -/
-
-/-- the merge loop of `msort_with_tmp`; needs at most `l.length + r.length + 1` iterations -/
-def mergeF : Nat → Store → List Nat → List Nat → List Nat → RF (List Nat × Store)
-  | 0, _, _, _, _ => .fuel
-  | f + 1, st, l, r, acc =>
-    match l, r with
-    | [], r => .ok (acc.reverse ++ r, st)
-    | l, [] => .ok (acc.reverse ++ l, st)
-    | a :: l', b :: r' =>
-      if (cmpM st a b).1 ≤ 0 then mergeF f (cmpM st a b).2 l' (b :: r') (a :: acc)
-      else mergeF f (cmpM st a b).2 (a :: l') r' (b :: acc)
-
-/-- `msort` with the recursion depth as fuel (`ids.length + 1` is enough) -/
-def msortF : Nat → Store → List Nat → RF (List Nat × Store)
-  | 0, _, _ => .fuel
-  | f + 1, st, ids =>
-    if ids.length ≤ 1 then .ok (ids, st) else
-    match msortF f st (ids.take (ids.length / 2)) with
-    | .ok (l, st1) =>
-      match msortF f st1 (ids.drop (ids.length / 2)) with
-      | .ok (r, st2) => mergeF (l.length + r.length + 1) st2 l r []
-      | .abort => .abort
-      | .fuel => .fuel
-    | .abort => .abort
-    | .fuel => .fuel
-
-/-! ## `hostlist_coalesce` -/
-
-/-- `hostlist_insert_range(hl, hr, j)` of a fresh copy: the copy gets the next free id -/
-def insertAt (st : Store) (ids : List Nat) (j : Nat) (mk : HostRange) : List Nat × Store :=
-  (ids.take j ++ [st.size] ++ ids.drop j, st.push mk)
-
-/-- one iteration of the `while (new->lo <= new->hi)` loop body of `hostlist_coalesce` for `new->lo = x`:
-    `a2hi` is `hprev->hi`, `b2lo` is `hnext->lo` -/
-def insOne (pfx : Name) (w a2hi b2lo : Nat) (st : Store) (ids : List Nat) (x j : Nat) : List Nat × Store × Nat :=
-  let mk : HostRange := { pfx := pfx, lo := x, hi := x, width := w, single := false }
-  let r1 : List Nat × Store × Nat :=
-    if x > a2hi then ((insertAt st ids j mk).1, (insertAt st ids j mk).2, j + 1) else (ids, st, j)
-  if x < b2lo then ((insertAt r1.2.1 r1.1 r1.2.2 mk).1, (insertAt r1.2.1 r1.1 r1.2.2 mk).2, r1.2.2 + 1) else r1
-
-/-- the `while (new->lo <= new->hi)` loop; same fuel (`newHi + 2 - newLo`) and same silent stop as `coalesce.loop.ins`
-    (the bound is exact: `x` runs `newLo..newHi`) -/
-def insF (pfx : Name) (w a2hi b2lo newHi : Nat) : Nat → Store → List Nat → Nat → Nat → List Nat × Store
-  | 0, st, ids, _, _ => (ids, st)
-  | f + 1, st, ids, x, j =>
-    if x > newHi then (ids, st) else
-    insF pfx w a2hi b2lo newHi f (insOne pfx w a2hi b2lo st ids x j).2.1 (insOne pfx w a2hi b2lo st ids x j).1
-      (x + 1) (insOne pfx w a2hi b2lo st ids x j).2.2
-
-/-- the body of `if (new) { … }` in `hostlist_coalesce`, after `hostrange_intersect` returned a range:
-    `p`, `q` are the ids of `hl->hr[i-1]`, `hl->hr[i]` -/
-def splitStep (st : Store) (ids : List Nat) (i p q : Nat) : List Nat × Store :=
-  let a := st[p]!; let b := st[q]!
-  let newLo := b.lo; let newHi := min b.hi a.hi; let newW := a.width
-  let b1 : HostRange := if newHi < a.hi then { b with hi := a.hi } else b
-  let a2 : HostRange := { a with hi := newLo }
-  let b2 : HostRange := { b1 with lo := newHi }
-  insF a.pfx newW newLo newHi newHi (newHi + 2 - newLo) ((st.set! p a2).set! q b2) ids newLo i
-
-/-- outcome of one iteration of an outer loop -/
-inductive StepRes where
-  | cont (st : Store) (ids : List Nat) (i : Nat)
-  | abort
-  | done (st : Store) (ids : List Nat)
-
-/-- the part of `hostrange_intersect` after its `assert`, and the `if (new)` body -/
-def coalesceTail (st : Store) (ids : List Nat) (i p q : Nat) : StepRes :=
-  if !(prefixCmp st[p]! st[q]! == 0 && (st[p]!).hi > (st[q]!).lo) then .cont st ids (i - 1) else
-  if !(combineM st p q).1 then .cont (combineM st p q).2 ids (i - 1) else
-  .cont (splitStep (combineM st p q).2 ids i p q).2 (splitStep (combineM st p q).2 ids i p q).1
-    ((splitStep (combineM st p q).2 ids i p q).1.length - 1)
-
-/-- one iteration of `for (i = hl->nranges - 1; i > 0; i--)` in `hostlist_coalesce` -/
-def coalesceStep (st : Store) (ids : List Nat) (i : Nat) : StepRes :=
-  if i == 0 then .done st ids else
-  if (st[ids[i-1]!]!).single || (st[ids[i]!]!).single then .cont st ids (i - 1) else
-  if (cmpM st ids[i-1]! ids[i]!).1 > 0 then .abort else
-  coalesceTail (cmpM st ids[i-1]! ids[i]!).2 ids i ids[i-1]! ids[i]!
-
-def coalesceLoopF : Nat → Store → List Nat → Nat → RF (List Nat × Store)
-  | 0, _, _, _ => .fuel
-  | f + 1, st, ids, i =>
-    match coalesceStep st ids i with
-    | .done st ids => .ok (ids, st)
-    | .abort => .abort
-    | .cont st ids i => coalesceLoopF f st ids i
-
-/-- number of ranges plus number of hosts -/
-def coalesceSize (st : Store) (ids : List Nat) : Nat :=
-  ids.length + (ids.map fun i => (st[i]!).cnt).sum
-
-/-- generous bound for the number of iterations of the outer loop of `hostlist_coalesce` -/
-def coalesceFuel (st : Store) (ids : List Nat) : Nat := (coalesceSize st ids + 2) * (coalesceSize st ids + 2)
-
-def coalesceF (st : Store) (ids : List Nat) : RF (List Nat × Store) :=
-  coalesceLoopF (coalesceFuel st ids) st ids (ids.length - 1)
-
-/-! ## `hostlist_collapse` -/
-
-/-- one iteration of `for (i = hl->nranges - 1; i > 0; i--)` in `hostlist_collapse` -/
-def collapseStep (st : Store) (ids : List Nat) (i : Nat) : StepRes :=
-  if i == 0 then .done st ids else
-  if prefixCmp st[ids[i-1]!]! st[ids[i]!]! == 0 && (st[ids[i-1]!]!).hi + 1 == (st[ids[i]!]!).lo then
-    if (combineM st ids[i-1]! ids[i]!).1 then
-      .cont ((combineM st ids[i-1]! ids[i]!).2.set! ids[i-1]!
-              { (combineM st ids[i-1]! ids[i]!).2[ids[i-1]!]! with hi := ((combineM st ids[i-1]! ids[i]!).2[ids[i]!]!).hi })
-            (ids.eraseIdx i) (i - 1)
-    else .cont (combineM st ids[i-1]! ids[i]!).2 ids (i - 1)
-  else .cont st ids (i - 1)
-
-def collapseLoopF : Nat → Store → List Nat → Nat → RF (List Nat × Store)
-  | 0, _, _, _ => .fuel
-  | f + 1, st, ids, i =>
-    match collapseStep st ids i with
-    | .done st ids => .ok (ids, st)
-    | .abort => .abort
-    | .cont st ids i => collapseLoopF f st ids i
-
-/-- `i` goes down by one per iteration from `ids.length - 1`, so `ids.length + 1` iterations are enough -/
-def collapseF (st : Store) (ids : List Nat) : RF (List Nat × Store) :=
-  collapseLoopF (ids.length + 1) st ids (ids.length - 1)
-
-/-! ## `hostlist_sort` -/
-
-def finishF (r : RF (List Nat × Store)) : SortResF :=
-  match r with
-  | .ok (ids, st) => .ok (ids.map fun i => st[i]!)
-  | .abort => .abort
-  | .fuel => .fuel
-
-def afterCoalesceF (r : RF (List Nat × Store)) : SortResF :=
-  match r with
-  | .ok (ids, st) => finishF (collapseF st ids)
-  | .abort => .abort
-  | .fuel => .fuel
-
-def afterMsortF (r : RF (List Nat × Store)) : SortResF :=
-  match r with
-  | .ok (ids, st) => afterCoalesceF (coalesceF st ids)
-  | .abort => .abort
-  | .fuel => .fuel
-
-/-- `hostlist_sort`, total -/
-def sortHLF (hl : Hostlist) : SortResF :=
-  if hl.length ≤ 1 then .ok hl else
-  afterMsortF (msortF (hl.length + 1) hl.toArray (List.range hl.length))
-
-/-- comparison of the two result types (for the agreement checks) -/
-def SortRes.agrees : SortRes → SortResF → Bool
-  | .ok a, .ok b => a == b
-  | .abort, .abort => true
-  | _, _ => false
-
-/-! ## agreement of `sortHLF` with `sortHL`, and the known defect F19 -/
+/-! ## evaluation checks, and the known defect F19 -/
 
 /-- the list `hostlist_create` builds from a string (`[]` on a parse error); for the checks below -/
 def hlOfString (s : String) : Hostlist :=
@@ -186,13 +13,13 @@ def hlOfString (s : String) : Hostlist :=
   | .ok hl => hl
   | .error _ => []
 
-/- `sortHL` is a `partial def`, so agreement can only be observed by evaluation, not proved.  With
+/- Record of the replacement.  Until this file's definitions moved into `Sort2.lean`, `sortHL` there was built from
+   `partial` definitions (`msort`, `coalesce` with a silent fuel of 100000, `collapse`); the present definitions were then called
+   `msort` … `sortHL`.  Agreement of the two could only be observed by evaluation, not proved.  With
 
-     def showRes : SortResF → String
-       | .ok hl => "ok " ++ String.ofList (rangedString hl) | .abort => "abort" | .fuel => "fuel"
      #eval tests.map fun s => ((sortHL (hlOfString s)).agrees (sortHLF (hlOfString s)), showRes (sortHLF (hlOfString s)))
 
-   the observed output (Lean 4.33.0) is `true` (same `Hostlist`, compared with `==`, or both abort) on every one of:
+   the observed output (Lean 4.33.0) was `true` (same `Hostlist`, compared with `==`, or both abort) on every one of:
 
      "f[97-100,066,97-103]"              abort          (known defect F19, in both)
      "f[066,97-100,97-103]"              abort
@@ -226,20 +53,23 @@ def hlOfString (s : String) : Hostlist :=
 
    `.fuel` was never observed.  A further run over 20000 pseudo-random lists (0-8 ranges, three prefixes `a`/`b`/`a1`,
    singles, `lo < 14`, length ≤ 6, widths 1-3) gave agreement on all 20000 (25 of them abort in both, none `.fuel`).
-   The differential harness compares `sortHL` with the C function. -/
+   The bound of `coalesce` was then `(size+2)²`; that is NOT always enough (10 copies of `n[1-30]` need 109364 iterations
+   of the outer loop against a bound of 97344, and the old silent fuel of 100000 was exceeded as well, by 20 copies of
+   `n[1-20]`: 458779 iterations), so it is now `(size+2)⁴` — see `coalesceFuel`.
+   The differential harness compares `sortHL` with the C function on every run. -/
 
 /-- the `…F` version evaluates in the kernel -/
-example : sortHLF (hlOfString "b2,a[1-3],a[2-5],b1") = .ok (hlOfString "a[1-2],a[2-3],a[3-5],b[1-2]") := by decide +kernel
-example : sortHLF (hlOfString "n[1-10],n[5-7]") = .ok (hlOfString "n[1-5],n[5-6],n[6-7],n[7-10]") := by decide +kernel
-example : sortHLF (hlOfString "n[08-10],n[9-11],n007") = .ok (hlOfString "n[9-11],n[08-10],n007") := by decide +kernel
-example : sortHLF (hlOfString "x,x,y,x1,x01,x[1-3]") = .ok (hlOfString "x,x,x1,x[1-3],x01,y") := by decide +kernel
-example : sortHLF (hlOfString "k[5-9],k[1-3],k4,k[10-12],k[0-0]") = .ok (hlOfString "k[0-12]") := by decide +kernel
-example : sortHLF (hlOfString "") = .ok [] := by decide +kernel
-example : sortHLF (hlOfString "a[1-5]") = .ok (hlOfString "a[1-5]") := by decide +kernel
+example : sortHL (hlOfString "b2,a[1-3],a[2-5],b1") = .ok (hlOfString "a[1-2],a[2-3],a[3-5],b[1-2]") := by decide +kernel
+example : sortHL (hlOfString "n[1-10],n[5-7]") = .ok (hlOfString "n[1-5],n[5-6],n[6-7],n[7-10]") := by decide +kernel
+example : sortHL (hlOfString "n[08-10],n[9-11],n007") = .ok (hlOfString "n[9-11],n[08-10],n007") := by decide +kernel
+example : sortHL (hlOfString "x,x,y,x1,x01,x[1-3]") = .ok (hlOfString "x,x,x1,x[1-3],x01,y") := by decide +kernel
+example : sortHL (hlOfString "k[5-9],k[1-3],k4,k[10-12],k[0-0]") = .ok (hlOfString "k[0-12]") := by decide +kernel
+example : sortHL (hlOfString "") = .ok [] := by decide +kernel
+example : sortHL (hlOfString "a[1-5]") = .ok (hlOfString "a[1-5]") := by decide +kernel
 
 /-- known defect F19 reproduces in the `…F` version: sorting `f[97-100,066,97-103]` dies in
     `assert(hostrange_cmp(h1, h2) <= 0)` of `hostrange_intersect` -/
-theorem sortHLF_F19_abort : sortHLF (hlOfString "f[97-100,066,97-103]") = .abort := by decide +kernel
+theorem sortHL_F19_abort : sortHL (hlOfString "f[97-100,066,97-103]") = .abort := by decide +kernel
 
 example : hlOfString "f[97-100,066,97-103]" =
     [⟨['f'], 97, 100, 2, false⟩, ⟨['f'], 66, 66, 3, false⟩, ⟨['f'], 97, 103, 2, false⟩] := by decide +kernel
